@@ -14,6 +14,8 @@ import (
 func init() { register("C16", checkC16) }
 
 func checkC16(c *Ctx) {
+	defer c16Clone(c)
+	defer c16ClientTicketsDisabled(c)
 	defer c16SessionID(c)
 	defer c16Ekm(c)
 	defer msgFrozenAfterMarshal(c, "K-MSG-frozen")
@@ -22,6 +24,8 @@ func checkC16(c *Ctx) {
 		"clones of the Config (and configs returned by GetConfigForClient) share the slice: refilling it in place on rotation silently changes the keys of the clones, whose own tickets then stop resuming")
 
 	c.Decided = append(c.Decided,
+		"G-C16-clone: Config.Clone stores every field of Config into the clone (fields of package sync exempt) — instances from the struct type",
+		"G-C16-clientdisabled: a branch of clientHandshake depends on Config.SessionTicketsDisabled",
 		"G-C16-ticket: decryptTicket rejects short tickets, unknown key names and any ticket whose HMAC-SHA256 (key of the named ticket key, over key name || IV || ciphertext) differs from the trailing MAC in a constant-time comparison; the AES-CTR decryption and the state parser run only after the MAC matched; tickets are never accepted when disabled",
 		"K-C16-layout: encryptTicket and decryptTicket agree on the ticket layout (offsets of key name, IV, ciphertext, MAC; MAC over everything before it); every call site hands decryptTicket a private copy because it decrypts in place",
 		"T-C16-state: sessionState.marshal, unmarshal and equal cover the same set of fields (version, suite, master secret, certificates)",
